@@ -13,8 +13,8 @@ CLAIMS = {
    note=TRUST + "PARTIAL: core.(*Lexer).NextToken and core.NewLexer are ASSUMED contracts (flags trusted: the lexer consumes input on every non-EOF token); parseStream/ParseIndirectObject, parseTraditionalXRef, the container readers (zip/xml/html libraries) and recursion DEPTH of the two object parsers (stack use grows with nesting of [ and <<) are not covered; the re-entrancy of GetObject through the uncontracted parser is cut by proved guard obligations, its global measure is argued in DESIGN.md; exponential fan-out of nested form XObjects (depth <= 10) is not bounded.",
    ref="5.2"),
  "C05": dict(
-   text="Deductive proof (own weakest-precondition VC generator over the typed Go AST of /repo, obligations discharged by SMT) that the PNG predictor (any per-row filter mix, any Columns/Colors geometry, all rows) and the TIFF predictor 2 decode exactly the bytes a conforming encoder started from, for every input length and geometry; Paeth against the PNG specification; unknown filter types, unsupported bit depths and invalid geometry yield an error. Unbounded: loop invariants, no unrolling.",
-   note=TRUST + "PARTIAL: zlib inflate is a trusted library; ASCIIHex/ASCII85 loops, getIntParam's type switch (uninterpreted dynamic-type tests) and the filter-chain driver (*Stream).Decode are not under contract.",
+   text="Deductive proof that the PNG predictor (any per-row filter mix, any Columns/Colors geometry, all rows) and the TIFF predictor 2 decode exactly the bytes a conforming encoder started from (ghost 'original image' sequences; Paeth against the PNG specification); that both predictors are SAFE and terminate on arbitrary data (robust views: the same functions verified without the provenance assumptions); ASCIIHex and ASCII85 per-element semantics (white space ignored, digit pairs / base-85 groups, 'z', partial final group, '~>', values above 2^32-1 rejected) as step contracts; the predictor dispatch (/Predictor 1 = identity, 2 = TIFF, 10..15 = PNG, anything else an error); FlateDecode = inflate then the named predictor (absent, null or 1: none); the filter-name dispatch including every abbreviation of ISO 32000 Table 6 (unknown name = error); and the filter chain: filters applied in array order, the i-th with the i-th /DecodeParms entry (none when the array is shorter) or the single dictionary.",
+   note=TRUST + "PARTIAL: zlib inflate (zlibDecompress) and CCITTFaxDecode are ASSUMED deterministic functions (flags trusted, reported in the evidence); 'decode(encode(x)) = x' for Flate as a whole therefore rests on the inflate library; getIntParam's type switch uses uninterpreted dynamic-type tests (exclusive per value).",
    ref="5.5"),
  "C06": dict(
    text="Proof, complete over all 256 byte values, that the three scanners (document parser, content-stream parser, filters) assign the same meaning to the lexical classes of ISO 32000 7.2: white-space, delimiters, hex digits and hex digit values all equal one spec function; plus the white-space skipping contract of the content-stream parser.",
@@ -34,27 +34,27 @@ CLAIMS = {
    ref="5.11"),
  "C13": dict(
    text="Deductive proof for the splitting kernels: split points lie in 0..len and, for valid UTF-8 input (exact RFC 3629 automaton as ghost state), always on a character boundary; backward search bounds (a break within 50 bytes before the target keeps the piece within target+1); SplitToSize terminates and returns non-empty, ordered, non-overlapping substrings of the input.",
-   note=TRUST + "PARTIAL: strings.TrimSpace is a trusted library contract; SplitToSize is stated without semantic boundaries (adjustBoundaryPositions ignores trimmed white space); forward overshoot (up to +50/+100 bytes past the maximum) is visible in the contract (ensures overshoot) and not claimed absent; overlap generation is not under contract.",
+   note=TRUST + "PARTIAL: strings.TrimSpace is a trusted library contract (incl. 'a suffix of valid UTF-8 starting on a boundary trims to boundaries'); SplitToSize is stated without semantic boundaries; forward overshoot (+50/+100 bytes) is visible in the contract and not claimed absent; sentence/paragraph overlap strategies and splitBySentences are not under contract. Added in round 3: character overlap is a trailing part of the text within the configured size and on character boundaries; truncation to MaxOverlap never splits a character; ApplyOverlapToChunks generates each overlap from the previous chunk's ORIGINAL text (needs the shared-pointer-write rule of the engine). Three defects repaired.",
    ref="5.13"),
  "C14": dict(
-   text="Deductive proof that ChunkCollection.Filter returns exactly the chunks satisfying the predicate, in order (predicate uninterpreted; position of each kept chunk = number of kept chunks before it), and that BatchExporter.Export terminates, stays in bounds and rejects a non-positive batch size.",
-   note=TRUST + "PARTIAL: well-formedness and parse-back of JSON/CSV text are delegated to encoding/json and encoding/csv (trusted, not modelled); CSV column collection and the vector-database record writers are not under contract.",
+   text="Deductive proof that ChunkCollection.Filter returns exactly the chunks satisfying the predicate, in order; that each convenience filter passes exactly its documented criterion to Filter (closure literal bound to the predicate symbol); that every export writes one record per chunk, in order: JSONL one Encode per chunk of that chunk's record, JSON one array with all records in order, CSV/TSV the header then one row per chunk with one field per column of the single sorted column list, streaming one record per call, vector-database records one per chunk with its id and text; that a record carries the chunk's id, text (when included), position metadata and flags; that the id/text/title columns carry those values; and that BatchExporter.Export terminates, stays in bounds and rejects a non-positive batch size; exporters do not modify their receiver (recvreadonly frames).",
+   note=TRUST + "PARTIAL: well-formedness and parse-back of the JSON/CSV TEXT are delegated to encoding/json and encoding/csv (trusted, not modelled); metadata maps (chunkMetadataToMap/filterMetadata/flattenMetadata) and numeric column formatting (fmt.Sprintf) are uninterpreted.",
    ref="5.14"),
  "C15": dict(
    text="Deductive proof that (a) every ATX heading written by the DOCX/ODT readers, chunk rendering and layout.Heading has between 1 and 6 '#' (call-site contracts on strings.Repeat, verified from an arbitrary state of the enclosing blocks), (b) the cell-escaping functions produce text without line feeds in which every '|' is preceded by a backslash, and (c) every string written into a pipe table by the model/DOCX/ODT/XLSX table writers is a structural literal or such escaped text.",
    note=TRUST + "PARTIAL: strings.ReplaceAll/TrimSpace are trusted library contracts; row arity, list structure, PPTX/HTML table writers (string concatenation) and body-text conservation are not under contract.",
    ref="5.15"),
  "C17": dict(
-   text="Deductive proof that ColumnToIndex computes bijective base-26 (case-insensitive, against a recursive spec function) for every ASCII letter string and rejects every string containing a non-letter, and that Sheet.Cell returns the addressed cell or nil outside the grid.",
-   note=TRUST + "PARTIAL: IndexToColumn/ParseCellRef round trip and the worksheet placement loops (parseWorksheet) are not yet under contract; strings.ToUpper is a trusted library contract (exact on ASCII).",
+   text="Deductive proof that ColumnToIndex computes bijective base-26 (case-insensitive, recursive spec) and rejects non-letters; ParseCellRef splits letters and digits and returns (column, row) zero-based; ParseRangeRef is two ParseCellRef corners around exactly one colon; IndexToColumn terminates, yields only upper-case letters and its last letter is 'A' + index mod 26; Sheet.Cell returns the addressed cell or nil; parseWorksheet allocates a dense grid covering every addressed cell, places every cell's raw value/formula/style at exactly the column its reference names (shared-string, boolean, error and formula-string values as specified) and touches no other cell; merged regions mark every covered cell, make the top-left cell the root with the region's extent and keep values; the shared-string table is index-stable (plain text or runs concatenated in order); findContentBounds encloses every value; sheetToTable maps table cell (k, c) to grid cell (minRow+1+k, minCol+c) with the first content row as header.",
+   note=TRUST + "BOUNDED stand-in (never counted as proved, see evidence bounded_stand_ins_not_counted_as_proved): ColumnToIndex(IndexToColumn(i)) == i, injectivity and shortlex order are checked exhaustively on the real code for i < 18278 (all one- to three-letter names), CellRef/ParseCellRef on a sampled grid - the prepend-vs-fold induction is not mechanised. strings.ToUpper/Split, strconv.Atoi are library functions (uninterpreted/deterministic); number formatting, TextWithOptions/Markdown renderings are not under contract.",
    ref="5.17"),
  "C19": dict(
    text="Deductive proof of the exclusion lattice: shouldExclude equals a fixed monotone combination of three detector results that provably do not read the mode (frame analysis noread), mode None excludes nothing and each stricter mode excludes a superset (lemma exclude_monotone).",
    note=TRUST + "PARTIAL: the DOM walk (x/net/html node pointers) is not modelled, so 'stricter modes yield a subsequence of the output' follows only together with the unproved fact that the walk skips exactly the excluded subtrees; the link-density memoisation cache is assumed coherent.",
    ref="5.19"),
  "C20": dict(
-   text="Deductive proof of the format decision kernels: extension table and its round trip for all seven formats, safe signature sniffing for every byte string, refusal when recognised content differs from the extension's format, and the DRM decision (rights file anywhere => refused; encrypted content iff some entry is not font obfuscation and covers a content document; font obfuscation = Adobe/IDPF obfuscation identifiers).",
-   note=TRUST + "PARTIAL: zip/xml parsing and the ZIP family detection loop are library/unmodelled; string predicates (Contains/HasSuffix/ToLower) are uninterpreted deterministic functions.",
+   text="Deductive proof of the format decision kernels: extension table and its round trip for all seven formats, safe signature sniffing for every byte string, ZIP family sniffing order (mimetype entry, then an EPUB container file anywhere, then the FIRST entry under word/, xl/ or ppt/; nothing recognised = Unknown), refusal when recognised content differs from the extension's format, a reader is opened only after the content check succeeded on the same extractor state, with the opener of the declared format and for the declared file, and the DRM decision (rights file anywhere => refused; encrypted content iff some entry is not font obfuscation and covers a content document).",
+   note=TRUST + "PARTIAL: zip/xml parsing are library code; reading the mimetype entry is I/O and not modelled; validateFormat is treated as a deterministic function of the extractor (the file is assumed not to change between check and open); string predicates (Contains/ToLower) are uninterpreted deterministic functions.",
    ref="5.20"),
  "C03": dict(
    text="Proof of frame conditions by static analysis of the real code plus contracts: (1) no package-level variable is written on any path reachable (static call graph, interface calls resolved by method name, function values) from an exported entry point — writes are allowed only in init functions or in declared registration APIs that no other entry point reaches; (2) the content-stream parser keeps pending operands per parser: every operator receives exactly the operands parsed since the previous operator of THIS parse (SMT-discharged contracts on parseNext/parseOperator/Parse); (3) range-over-map loops accepted by structural order-insensitivity rules on the reviewed tree stay order-insensitive (e.g. CSV columns are sorted after collection).",
@@ -66,7 +66,7 @@ CLAIMS = {
    ref="5.4"),
  "C07": dict(
    text="Deductive proof that DecodeUTF16BE/LE return exactly the scalar values a conforming UTF-16 encoder (RFC 2781, ghost scalar and offset sequences) started from, including surrogate pairs, for every well-formed even-length input; that the simple-font table decoder returns exactly the mapped table entries in order; that CMap.Lookup gives an explicit bfchar mapping precedence over ranges and maps a code in the first matching range to StartUnicode+(code-StartCode); and that fixed-width and width-less CMap string decoding stay in bounds and terminate.",
-   note=TRUST + "PARTIAL: the UTF-16 monotonicity of offsets is a redundant precondition implied pointwise (induction not mechanised); string(rune)/string([]rune) are uninterpreted encodings (UTF-8 validity of the final string, NFC normalisation, the encoding tables' contents, CMap program parsing and decode-priority in (*Font).DecodeString are not under contract).",
+   note=TRUST + "PARTIAL: NFC normalisation (NormalizeUnicode) is an ASSUMED deterministic library function; the named-encoding branch of Font.DecodeString goes through an interface and is not compared; string(rune)/string([]rune) are uninterpreted encodings; the encoding tables' contents, bfrange array targets (parseBfRangeSectionWithArrays), codespacerange parsing and hexToUnicode's hex decoding are not under contract. Added in round 3: decode priority of Font.DecodeString (ToUnicode, then UTF-16 BOM, then raw bytes; NFC last), robust (arbitrary-input) views of the UTF-16 decoders, bfchar/bfrange section parsing (bracketed strings in order, pairs/triples, one mapping per well-formed group, nothing else touched).",
    ref="5.7"),
  "C09": dict(
    text="Deductive proof of fragment conservation for the line-grouping stages: for an ARBITRARY non-negative weight per fragment (uninterpreted, so the statement is multiset equality), text.groupFragments and layout.(*LineDetector).groupIntoLines (including its sort and per-line re-sorts) preserve the total weight and produce no empty line, and buildLines puts every group's fragments into exactly one Line except for the recorded known finding (narrow lines).",
@@ -77,8 +77,8 @@ CLAIMS = {
    note=TRUST + "PARTIAL: content conservation (every element's text in exactly one chunk), ID uniqueness (fmt.Sprintf is uninterpreted) and the layout-based rag.Chunker section tree are not under contract.",
    ref="5.12"),
  "C18": dict(
-   text="Deductive proof that EPUB chapters are loaded in spine order (strictly increasing declared index, each from its manifest item) and worksheets in workbook order with their declared names; PPTX: must-read frame obligation (slide order can only follow the declared slide list if the code reads it) — fails on the pinned tree and is a recorded known finding with a witness.",
-   note=TRUST + "PARTIAL: href resolution, percent-decoding, relationship resolution and 'text appears only in its own page' are not under contract.",
+   text="Deductive proof that EPUB chapters are loaded in spine order (strictly increasing declared index, each from its manifest item), that the spine keeps declaration order (convertSpine), that hrefs are percent-decoded as PATHS (url.PathUnescape: '+' stays '+') and resolved against the package directory; worksheets in workbook order with their declared names, every declared relationship recorded under its id; PPTX: must-read frame obligation (slide order can only follow the declared slide list if the code reads it) - fails on the pinned tree and is a recorded known finding with a witness. One defect repaired (query-style unescaping of hrefs).",
+   note=TRUST + "PARTIAL: container.xml/OPF XML parsing, slide discovery internals and 'text appears only in its own page' are not under contract; url.PathUnescape and path.Join are deterministic library functions.",
    ref="5.18"),
 }
 
